@@ -344,14 +344,20 @@ def vec(ra, dec):
 def oracle_sphere(fn, rng, n=400):
     """property-level oracle on the real functions at random points; returns (bad, cls, detail)"""
     at = loader.real('angle_tools')
-    for _ in range(n):
+    for it in range(n):
         ra1, dec1, ra2, dec2 = rng.uniform(0, 360), rng.uniform(-89, 89), rng.uniform(0, 360), rng.uniform(-89, 89)
+        if it % 4 == 0:
+            # close pairs (arcseconds apart), also at large RA / |dec|
+            ra1, dec1 = rng.choice([rng.uniform(0, 360), 350.0, 359.9]), rng.choice([rng.uniform(-85, 85), 80.0, -84.0])
+            sep = 10 ** rng.uniform(-4.5, -2)
+            ang = rng.uniform(0, 2 * math.pi)
+            ra2, dec2 = ra1 + sep * math.sin(ang) / max(0.05, math.cos(math.radians(dec1))), dec1 + sep * math.cos(ang)
         if fn == 'gcd':
             g = float(at.gcd(ra1, dec1, ra2, dec2))
             p, q = vec(ra1, dec1), vec(ra2, dec2)
             cr = (p[1] * q[2] - p[2] * q[1], p[2] * q[0] - p[0] * q[2], p[0] * q[1] - p[1] * q[0])
             want = math.degrees(math.atan2(math.sqrt(sum(x * x for x in cr)), sum(a * b for a, b in zip(p, q))))
-            if abs(g - want) > 1e-7 or abs(g - float(at.gcd(ra2, dec2, ra1, dec1))) > 1e-9 or not (0 <= g <= 180):
+            if abs(g - want) > 1e-7 + 1e-6 * want or abs(g - float(at.gcd(ra2, dec2, ra1, dec1))) > 1e-9 or not (0 <= g <= 180):
                 return True, 'vector-formula', 'gcd(%r,%r,%r,%r)=%r expected %r' % (ra1, dec1, ra2, dec2, g, want)
         elif fn == 'bear':
             b = float(at.bear(ra1, dec1, ra2, dec2))
